@@ -20,6 +20,10 @@ One row per (entry point or class-table slot) x (pointer-parameter position).
            R4 show(): NULL self is a defined input ("NULL" is appended to the buffer)      -> not claimed
            R5 a guard whose "failure value" is a call (init_from_ptr(self, NULL) == init)  -> NULL is a defined input, not claimed
            R6 anything else without an entry guard                                         -> not claimed (no documented guard)
+           R8 variants of a claimed row (same contract, the guard sits at the entry):      nint / nsigned = integer companion
+              arguments, called at their mid-range value, all at 0 and (signed ones) all at -1; allnull = on the row of the FIRST
+              entry guard of a function with >= 2 pointer parameters: the failure class an ALL-POINTERS-NULL call must return
+              (CMP_EQUAL for the NULL-ordering macros and comp slots); no variants where a non-pointer guard comes first
            R7 functions that cannot be called in the harness (NOT_CALLABLE: X11/Imlib2)    -> rows listed, never claimed
 Besides "rows" the JSON lists "no_pointer_parameters" (exported entry points with nothing to pair with NULL) and "excluded"
 (declared in include/ but not built in the pinned configuration), so that the header scan of checks/c16.py reports only
@@ -41,6 +45,20 @@ SCALAR = {"spif_memidx_t", "size_t", "spif_stridx_t", "spif_ustridx_t", "int", "
           "spif_uint8_t", "unsigned long", "unsigned short", "register size_t", "register const char", "...", "spif_bool_t", "double",
           "spif_uint32_t", "spif_sockport_t", "unsigned int", "char", "unsigned char", "Drawable", "Pixmap", "spif_tls_handle_t",
           "spif_uint16_t", "spif_uint64_t", "spif_int64_t", "spif_int16_t", "spif_int8_t", "short"}
+SIGNED_INT = {"spif_memidx_t", "spif_stridx_t", "spif_ustridx_t", "spif_listidx_t", "spif_int32_t", "int", "long", "spif_tls_handle_t",
+              "short", "spif_int64_t", "spif_int16_t", "spif_int8_t"}
+UNSIGNED_INT = {"size_t", "unsigned long", "unsigned short", "unsigned char", "unsigned int", "spif_uint8_t", "spif_uint32_t",
+                "spif_sockport_t", "spif_uint16_t", "spif_uint64_t"}
+
+
+def int_kind(t, n):
+    """'s' / 'u' for an integer companion argument that the variants set to 0 (and -1 when signed); None otherwise"""
+    t = re.sub(r'\b(register|const)\s+', '', t).strip()
+    if n == "fd":
+        return None                 # a descriptor is a resource, not a magnitude
+    return "s" if t in SIGNED_INT else ("u" if t in UNSIGNED_INT else None)
+
+
 FN = re.compile(r'^(static\s+)?((?:const\s+|unsigned\s+|struct\s+)?[A-Za-z_]\w*(?:\s*\*+)?)\s*\n(\w+)\(([^)]*)\)\s*\n\{', re.M)
 GUARD = re.compile(r'^(ASSERT_RVAL|REQUIRE_RVAL|ASSERT|REQUIRE|SPIF_OBJ_COMP_CHECK_NULL|SPIF_COMP_CHECK_NULL)\s*\((.*)\);$')
 DECL = re.compile(r'^(register\s+|const\s+|unsigned\s+|struct\s+|static\s+)*[A-Za-z_]\w*[\s\*]+\**\w+(\[[^\]]*\])?(\s*=\s*[^;]+)?'
@@ -203,6 +221,32 @@ def main():
         for f, via, var, member, iface in units:
             is_method = f["name"].startswith(method_prefix) or f["name"].startswith("spif_obj_") or via == "slot"
             short = member or f["name"][len(method_prefix):] if f["name"].startswith(method_prefix) else (member or f["name"])
+            kinds = [int_kind(t, n) for t, n in f["params"]]
+            nint, nsigned = sum(k is not None for k in kinds), sum(k == "s" for k in kinds)
+            pnames = [n for t, n in f["params"] if is_ptr(t)]
+            # the first entry guard that names a pointer parameter: what an all-pointers-NULL call must hit (R8)
+            first_guard = None          # (parameter name, failure class)
+            numeric_guard_first = False
+            for gi, (kind, args) in enumerate(f["guards"]):
+                if kind in ("SPIF_OBJ_COMP_CHECK_NULL", "SPIF_COMP_CHECK_NULL"):
+                    hit = [a for a in args if a in pnames]
+                    if hit:
+                        first_guard = (hit[0], "CMP_EQUAL" if len(hit) == 2 else ("CMP_LESS" if args.index(hit[0]) == 0 else "CMP_GREATER"))
+                        break
+                    continue
+                hit = [pn for pn in pnames if (re.search(r'ISNULL\s*\(\s*%s\s*\)' % re.escape(pn), args[0])
+                                               or re.search(r'\b%s\s*!=\s*(\([^)]*\)\s*)?NULL' % re.escape(pn), args[0]) or args[0].strip() == pn)]
+                if hit:
+                    fc = fail_class(args[1] if len(args) > 1 else "void", f["ret"])
+                    first_guard = (hit[0], fc) if fc != "CALL" else None
+                    break
+                numeric_guard_first = True      # an entry guard on something else precedes every pointer guard
+            unit_is_show = short == "show" or f["name"].endswith("_show")
+            unit_is_comp = ((member == "comp") or f["name"].endswith("_comp")) and f["ret"] == "spif_cmp_t"
+            if len(pnames) < 2 or unit_is_show or f["name"] in NOT_CALLABLE or numeric_guard_first:
+                first_guard = None
+            elif first_guard is None and unit_is_comp:
+                first_guard = (pnames[0], "CMP_EQUAL")
             for i, (t, n) in enumerate(f["params"]):
                 if not is_ptr(t):
                     continue
@@ -222,7 +266,8 @@ def main():
                 if f["name"] in NOT_CALLABLE:
                     rows.append(dict(file=f["file"], owner=OWNER[f["file"]], func=f["name"], via=via, classvar=var, member=member, iface=iface,
                                      ret=f["ret"], params=f["params"], pos=i, pname=n, ptype=t, guard=g[0] if g else None,
-                                     fail=None, claimed=False, why="R7 not callable in the harness: " + NOT_CALLABLE[f["name"]]))
+                                     fail=None, claimed=False, why="R7 not callable in the harness: " + NOT_CALLABLE[f["name"]],
+                                     nint=0, nsigned=0, allnull=None))
                     continue
                 is_self = (i == 0 and n == "self" and is_method)
                 is_show = short == "show" or f["name"].endswith("_show")
@@ -241,7 +286,10 @@ def main():
                     why = "R6 no entry guard documented for this parameter"
                 rows.append(dict(file=f["file"], owner=OWNER[f["file"]], func=f["name"], via=via, classvar=var, member=member, iface=iface,
                                  ret=f["ret"], params=f["params"], pos=i, pname=n, ptype=t, guard=g[0] if g else None,
-                                 fail=fail, claimed=claimed, why=why))
+                                 fail=fail, claimed=claimed, why=why,
+                                 nint=nint if (claimed and not numeric_guard_first) else 0,
+                                 nsigned=nsigned if (claimed and not numeric_guard_first) else 0,
+                                 allnull=(first_guard[1] if (first_guard and first_guard[0] == n and claimed) else None)))
     rows.sort(key=lambda r: (FILES.index(r["file"][:-2]), r["via"], r["classvar"] or "", r["func"], r["pos"]))
     for k, r in enumerate(rows):
         r["id"] = k + 1
@@ -259,11 +307,13 @@ def main():
         f.write("---------------------------- MODULE NullGuardTable ----------------------------\n")
         f.write("(* C16 contract table, generated ONCE by tools/c16_gen_table.py from the pinned sources and reviewed;   *)\n")
         f.write("(* twin of NullGuardTable.json.  One row per (entry point or class-table slot, pointer parameter).     *)\n")
+        f.write("(* nint/nsigned: integer companion arguments varied (0 / -1); allnull: class an all-pointers-NULL call returns.  *)\n")
         f.write("(* fail: failure value class; claimed: the property makes a claim about the row; guard: the pinned     *)\n")
         f.write("(* source's entry guard (\"none\" = no guard of its own).  NOT regenerated by the check.                 *)\n")
         f.write("Rows == <<\n")
-        f.write(",\n".join('  [id |-> %d, key |-> "%s", fail |-> "%s", claimed |-> %s, guard |-> "%s"]' % (
-            r["id"], r["key"], r["fail"] or "NONE", "TRUE" if r["claimed"] else "FALSE", r["guard"] or "none") for r in rows))
+        f.write(",\n".join('  [id |-> %d, key |-> "%s", fail |-> "%s", claimed |-> %s, guard |-> "%s", nint |-> %d, nsigned |-> %d, allnull |-> "%s"]' % (
+            r["id"], r["key"], r["fail"] or "NONE", "TRUE" if r["claimed"] else "FALSE", r["guard"] or "none", r["nint"], r["nsigned"],
+            r["allnull"] or "NONE") for r in rows))
         f.write("\n>>\n================================================================================\n")
     n = len(rows)
     c = sum(r["claimed"] for r in rows)
